@@ -55,6 +55,20 @@ def inflight_cases(rng):
         except Exception as e:  # noqa
             fails.append(('iteration_in_flight_raises', {'kind': kind, 'n': n, 'workers': w, 'buffer': b, 'reshuffle': reshuffle, 'err': repr(e)[:200]}))
             return fails
+        if keyed:
+            # the keyed view: prefetching stages deliver the (key, example) pairs of the sequential pipeline
+            plain = lazy_dataset.new(src).map(f)
+            want_items = list(plain.items())
+            for nm, mk in (('prefetch(1, b).items()', lambda: plain.prefetch(1, b).items()),
+                           ('map(f, num_workers).items()', lambda: lazy_dataset.new(src).map(f, num_workers=w, buffer_size=b).items()),
+                           ('prefetch(1, b).map(id).items()', lambda: plain.prefetch(1, b).map(lambda x: x).items())):
+                try:
+                    gi = list(mk())
+                except Exception as e:  # noqa
+                    gi = repr(e)[:120]
+                if gi != want_items:
+                    fails.append(('items_not_transparent', {'kind': nm, 'n': n, 'workers': w, 'buffer': b, 'delivered': gi, 'expected': want_items}))
+                    break
         for i, g in enumerate(got):
             ok = (sorted(g) == want) if reshuffle else (g == [x * 10 for x in range(n)])
             if not ok:
@@ -82,7 +96,7 @@ def run(rep):
 
 
 def replay(j):
-    if str(j.get('clause', '')).startswith('iteration_in_flight'):
+    if str(j.get('clause', '')).startswith(('iteration_in_flight', 'items_not_transparent')):
         print(j)
         return 1
     return concrun.replay('C04', WHICH, j)
